@@ -190,7 +190,10 @@ class FileParser:
 
             groups["file"].start_line = 1
 
-            source = file_source(source_file)
+            # A file parsed in the language of the file including it may be
+            # a fragment that stops in the middle of a statement, which the
+            # including file completes.
+            source = file_source(source_file, relaxed=language is not None)
             try:
                 while True:
                     logical_line = next(source)
